@@ -151,8 +151,12 @@ impl QueryNode {
         match self {
             QueryNode::MatchAllDocs => String::from("*:*"),
             QueryNode::MatchNoDocs => String::from("-*:*"),
-            QueryNode::AttributeExists { attr } => format!("_exists_:{attr}"),
-            QueryNode::AttributeMissing { attr } => format!("_missing_:{attr}"),
+            QueryNode::AttributeExists { attr } => {
+                format!("_exists_:{}", Self::exists_operand(attr))
+            }
+            QueryNode::AttributeMissing { attr } => {
+                format!("_missing_:{}", Self::exists_operand(attr))
+            }
             QueryNode::AttributeRange {
                 attr,
                 lower,
@@ -265,6 +269,15 @@ impl QueryNode {
         output
     }
 
+    /// Operand of `_exists_:` / `_missing_:` (an empty name can only be written as a phrase).
+    fn exists_operand(attr: &str) -> String {
+        if attr.is_empty() {
+            String::from("\"\"")
+        } else {
+            Self::lucene_escape(attr)
+        }
+    }
+
     /// A leading AND / OR / NOT / && / || would be read as an operator.
     fn starts_with_operator(input: &str) -> bool {
         ["AND", "OR", "NOT", "&&", "||"]
@@ -332,7 +345,7 @@ impl QueryNode {
         if attr == DEFAULT_FIELD {
             String::new()
         } else {
-            format!("{attr}:")
+            format!("{}:", Self::lucene_escape(attr))
         }
     }
 
